@@ -44,3 +44,17 @@ Theorem C15_whole_image_thread_names : forall c dirs lg s',
     In (Image.T_NAMES, {| MemWriter.l_rva := N.of_nat off; MemWriter.l_size := (4 + N.of_nat (Image.NAME_SZ * n))%N |}) dirs.
 Proof. exact ImageThreads.image_thread_names. Qed.
 Print Assumptions C15_whole_image_thread_names.
+
+(* End to end (structural model -> image): whenever the names of the content are the model's named threads (every listed thread
+   whose name could be read, in list order; a thread without a readable name contributes nothing and shifts nothing), the stream
+   of the FINAL image has exactly one record per such thread, in that order, with that thread's id and the location of exactly
+   its own name. *)
+Theorem C15_whole_image_thread_names_of_world : forall c (ths : list thread) dirs lg s',
+  Image.image c MiniDump.empty_wst = MemWriter.Ok ((dirs, lg), s') -> Hoare.small (Hoare.blen s') -> Image.ic_names c = named ths ->
+  let n := length (named ths) in
+  exists rs off,
+    Forall2 (fun x r => fst r = fst x /\ ImageThreads.designates 248 (Writer.w_buf s') (snd r) (md_string (snd x))) (named ths) rs /\
+    slice (Writer.w_buf s') off (4 + Image.NAME_SZ * n) = le 4 (N.of_nat n) ++ concat (map Image.enc_name rs) /\
+    In (Image.T_NAMES, {| MemWriter.l_rva := N.of_nat off; MemWriter.l_size := (4 + N.of_nat (Image.NAME_SZ * n))%N |}) dirs.
+Proof. exact ImageThreads.image_thread_names_of_world. Qed.
+Print Assumptions C15_whole_image_thread_names_of_world.
